@@ -299,9 +299,9 @@ def impl(case):
 
 
 def _degenerate_antialias(case, io):
-    """A requested spacing so coarse that the antialiasing block means are collinear / fewer than three: Qhull refuses the
-    degenerate hull — outside the property (non-degenerate hulls)."""
-    return (case["fn"] == "pg" and C.is_err(io) and "QhullError" in io[1] and case["args"][5] and "spacing" in case["args"][6])
+    """A requested spacing / region / shape under which the antialiasing block means are collinear or fewer than three (e.g. two data
+    columns averaged into one block column): Qhull refuses the degenerate hull — outside the property (non-degenerate hulls)."""
+    return (case["fn"] == "pg" and C.is_err(io) and "QhullError" in io[1] and case["args"][5] and bool(case["args"][6]))
 
 
 def compare(case, io, mo):
